@@ -1,7 +1,7 @@
 (** C12, service layer: isolation follows from the regenerated facts; without
     recover a single panicking command takes every later connection down. *)
 From Coq Require Import String Ascii List Bool Arith Lia.
-From Raven Require Import Base.GoStr Model.Slicers Model.Service Spec.NoCrash.
+From Raven Require Import Base.GoStr Model.Service Spec.NoCrash.
 Import ListNotations.
 
 Lemma step_recovering (ev : conn_event) :
@@ -90,29 +90,34 @@ Proof.
   rewrite run_dead. split; reflexivity.
 Qed.
 
-(** ---- concrete witness: FETCH ENVELOPE on a stored message ---- *)
+(** ---- regression fact about the OLD tree (no recover in any entry point):
+    an abstract handler that panics on one command; it does not mention the
+    function-layer models ---- *)
 Local Open Scope string_scope.
 
-(** IMAP command handler restricted to what the witness needs: FETCH … ENVELOPE
-    answers with BuildEnvelope of the stored message, anything else with OK *)
-Definition imap_handler (stored : str) : handler :=
-  fun c => if contains (to_upper c) (S_ "ENVELOPE")
-           then option_map (fun e => [e]) (build_envelope stored)
-           else Some [S_ "OK"].
+Definition panicking_handler : handler :=
+  fun c => if str_eqb c (S_ "boom") then None else Some [S_ "OK"].
 
-Definition witness_message : str := (S_ "From: >a<" ++ crlf ++ crlf ++ S_ "x")%list.
-Definition pinned_imap_entry : entry :=
+Definition old_imap_entry : entry :=
   mk_entry (S_ "cmd/server/main.go:86") (S_ "HandleConnection") Imap true true false.
 
-Definition witness_events : list conn_event :=
-  [ mk_event pinned_imap_entry (imap_handler witness_message) [S_ "a FETCH 1 ENVELOPE"];
-    mk_event pinned_imap_entry (imap_handler witness_message) [S_ "b NOOP"] ].
+Definition old_events : list conn_event :=
+  [ mk_event old_imap_entry panicking_handler [S_ "a NOOP"; S_ "boom"];
+    mk_event old_imap_entry panicking_handler [S_ "b NOOP"] ].
 
-Theorem refuted_service_witness :
-  recovers pinned_imap_entry = false
-  /\ classify_envelope witness_message = Some AddressAngle
-  /\ fst (run true witness_events) = false
-  /\ snd (run true witness_events) <> map alone witness_events.
+Example old_service_without_recover :
+  recovers old_imap_entry = false
+  /\ fst (run true old_events) = false
+  /\ snd (run true old_events) <> map alone old_events.
 Proof.
   repeat split; try (vm_compute; reflexivity). vm_compute. discriminate.
 Qed.
+
+(** the same events on an entry point that recovers: isolated *)
+Example recovering_entry_isolates :
+  let e := mk_entry (S_ "cmd/server/main.go:86") (S_ "HandleConnection") Imap true true true in
+  let evs := [ mk_event e panicking_handler [S_ "a NOOP"; S_ "boom"; S_ "never"];
+               mk_event e panicking_handler [S_ "b NOOP"] ] in
+  run true evs = (true, map alone evs)
+  /\ map o_closed (snd (run true evs)) = [true; false].
+Proof. vm_compute. split; reflexivity. Qed.
